@@ -335,6 +335,7 @@ class Translator:
         self.stack = []
         self.canon = {}
         self.failed = {}         # requested name -> reason
+        self.sigs = []           # one record per requested root: how to call it in Python and in Coq (used by harness/sweep.py)
 
     # ---------------------------------------------------------- instantiate
     def instantiate(self, kind, owner, mod, fn, arg_tys, want_name=None, self_cls=None):
@@ -389,7 +390,9 @@ class Translator:
                 fn = self.src.funcs.get((mod, fname))
                 if fn is None:
                     raise Untranslatable('no function %s' % tgt)
-                return self.instantiate('func', None, mod, fn, spec['args'], spec.get('name'))
+                res = self.instantiate('func', None, mod, fn, spec['args'], spec.get('name'))
+                self.sigs.append(dict(spec=spec, kind='func', owner=None, module=mod, func=fname, result=res))
+                return res
             cls, meth = tgt.split('.')
             found = CLASSES.find_member(cls, meth if not meth.startswith('__') or meth.endswith('__') else meth)
             if found is None:
@@ -398,7 +401,9 @@ class Translator:
             kind = method_kind(fn)
             if meth == '__init__':
                 kind = 'init'
-            return self.instantiate(kind, owner, mod, fn, spec['args'], spec.get('name'), self_cls=cls)
+            res = self.instantiate(kind, owner, mod, fn, spec['args'], spec.get('name'), self_cls=cls)
+            self.sigs.append(dict(spec=spec, kind=kind, owner=owner, module=mod, func=meth, cls=cls, result=res))
+            return res
         except Exception as e:
             if not isinstance(e, Untranslatable):
                 e = Untranslatable('translator error %s: %s' % (type(e).__name__, e))
@@ -948,7 +953,30 @@ class FuncTranslator:
             if found and isinstance(found[2], ast.FunctionDef) and method_kind(found[2]) == 'method':
                 fn = found[2]
                 if self.only_touches_memo_of_args(fn):
-                    return self.block(rest, env)       # memo transfer to another object: no effect on values
+                    # transfer of slots to another (local) object: memo slots do not change its value, but an assignment to one
+                    # of its DEFINING slots (e.g. Polyline._interpolated) does: those are replayed as record updates of the local
+                    params_ = [a.arg for a in fn.args.args]
+                    upd = []
+                    for b in fn.body:
+                        for x in ([b] if isinstance(b, ast.Assign) else (b.body + b.orelse if isinstance(b, ast.If) else [])):
+                            if not isinstance(x, ast.Assign):
+                                continue
+                            t = x.targets[0]
+                            k = params_.index(t.value.id) - 1
+                            if k >= len(c.args) or not isinstance(c.args[k], ast.Name):
+                                self.fail(st, 'slot transfer to a non-variable argument')
+                            loc = c.args[k].id
+                            lv = env.get(loc)
+                            if isinstance(lv, Val) and isinstance(lv.t, TObj):
+                                cfg = CLASSES.root_cfg(lv.t.cls)
+                                if t.attr in [f[0] for f in cfg['fields']]:
+                                    if isinstance(b, ast.If):
+                                        self.fail(st, 'conditional transfer of a defining slot')
+                                    na = ast.Assign(targets=[ast.Attribute(value=ast.Name(id=loc, ctx=ast.Load()), attr=t.attr, ctx=ast.Store())],
+                                                    value=x.value)
+                                    ast.copy_location(na, st); ast.fix_missing_locations(na)
+                                    upd.append(na)
+                    return self.block(upd + list(rest), env)
                 params = [a.arg for a in fn.args.args][1:]
                 if len(params) == len(c.args):
                     vals = [self.expr(a, env) for a in c.args]
@@ -2059,11 +2087,18 @@ def generate(root, layers):
     for stem, specs in layers:
         start = len(tr.out)
         for sp in specs:
+            n0 = len(tr.sigs)
             tr.request(sp)
+            for sg in tr.sigs[n0:]:
+                sg['stem'] = stem
         body = ''.join(t + '\n' for _, t in tr.out[start:])
         imports = ''.join(' ' + p for p in prev)
         files[stem] = HEADER % dict(root=root, imports=imports) + body
         prev.append(stem)
+    SIGNATURES[:] = tr.sigs
     return files, tr.failed
+
+
+SIGNATURES = []
 
 
